@@ -2,7 +2,7 @@
 namespace {
 
 enum OB { O_GET_D, O_GET_D_N, O_ADD_Q_N, O_R_PROD, O_S_PROD, O_R_WORK, O_S_WORK, O_CONSTR, O_CONSTR_N, O_GCP, O_GCP_N,
-          O_GN, O_GN_N, OB_COUNT };
+          O_GN, O_GN_N, OB_COUNT, O_H = OB_COUNT, O_H_N, OB_COUNT_H };
 // provides bits printed in the order of Alpaqa.C20.ocpOptional:
 //   get_D get_D_N eval_h eval_h_N eval_add_Q_N R_prod S_prod R_work S_work constr constr_N gcp gcp_N gn gn_N
 
@@ -36,8 +36,8 @@ struct OP : OcpBase {
     void eval_f(index_t t, crvec x, crvec u, rvec o) const { LOG("eval_f"); c20o_f(NX, NU, t, x.data(), u.data(), o.data()); }
     void eval_jac_f(index_t t, crvec x, crvec u, rmat J) const { LOG("eval_jac_f"); c20o_jac_f(NX, NU, t, x.data(), u.data(), J.data()); }
     void eval_grad_f_prod(index_t t, crvec x, crvec u, crvec p, rvec o) const { LOG("eval_grad_f_prod"); c20o_grad_f_prod(NX, NU, t, x.data(), u.data(), p.data(), o.data()); }
-    void eval_h(index_t t, crvec x, crvec u, rvec h) const { LOG("eval_h"); c20o_h(NX, NU, nh, t, x.data(), u.data(), h.data()); }
-    void eval_h_N(crvec x, rvec h) const { LOG("eval_h_N"); c20o_h_N(NX, nh, x.data(), h.data()); }
+    void eval_h(index_t t, crvec x, crvec u, rvec h) const requires(has(O_H)) { LOG("eval_h"); c20o_h(NX, NU, nh, t, x.data(), u.data(), h.data()); }
+    void eval_h_N(crvec x, rvec h) const requires(has(O_H_N)) { LOG("eval_h_N"); c20o_h_N(NX, nh, x.data(), h.data()); }
     real_t eval_l(index_t t, crvec h) const { LOG("eval_l"); return c20o_l(nh, t, h.data()); }
     real_t eval_l_N(crvec h) const { LOG("eval_l_N"); return c20o_l_N(nh, h.data()); }
     void eval_qr(index_t t, crvec xu, crvec h, rvec qr) const { LOG("eval_qr"); c20o_qr(NX, NU, nh, t, xu.data(), h.data(), qr.data()); }
@@ -62,8 +62,20 @@ struct OP : OcpBase {
     OPV(eval_add_S_prod_masked, O_S_PROD) OPV(get_R_work_size, O_R_WORK) OPV(get_S_work_size, O_S_WORK)
     OPV(eval_constr, O_CONSTR) OPV(eval_constr_N, O_CONSTR_N) OPV(eval_grad_constr_prod, O_GCP)
     OPV(eval_grad_constr_prod_N, O_GCP_N) OPV(eval_add_gn_hess_constr, O_GN) OPV(eval_add_gn_hess_constr_N, O_GN_N)
+    OPV(eval_h, O_H) OPV(eval_h_N, O_H_N)
 #undef OPV
 };
+
+/// Can the counting wrapper wrap a problem without output mapping?  (It could not before the
+/// requires-clauses on ControlProblemWithCounters::eval_h / eval_h_N were added; the instantiations
+/// without eval_h are compiled only when it can, so that the harness builds on either tree.)
+struct ProbeNoH {
+    USING_ALPAQA_CONFIG(alpaqa::DefaultConfig);
+};
+template <class T>
+constexpr bool wrapper_declares_eval_h = requires { &alpaqa::ControlProblemWithCounters<T>::eval_h; } &&
+                                          requires { &alpaqa::ControlProblemWithCounters<T>::eval_h_N; };
+constexpr bool eval_h_optional = !wrapper_declares_eval_h<ProbeNoH>;
 
 // reference for the OCP loader: raw table, arguments as documented in dl-problem.h
 struct RefDLO {
